@@ -1,4 +1,5 @@
 """C14 Every block comment has at most one owner, chosen by the documented rules."""
+import copy
 import collections
 
 from .. import common, gen, ops, walker, attribution, storemodel
@@ -12,7 +13,8 @@ GATES = {
     'quick': {'evaluations': 25000, 'comments_vs_table': 8000, 'expected:leading': 2500, 'expected:trailing': 1200, 'expected:standalone': 1500,
               'layout:indented-comment': 2000, 'layout:blank-separated': 500, 'layout:mixed-class-adjacent': 300, 'layout:file-start': 500,
               'layout:file-end': 300, 'layout:after-last-meta-no-postings': 40, 'layout:before-dedent': 300, 'layout:nested-posting-meta': 100,
-              'history_steps': 6000, 'handover_claims': 1500, 'manual_claims_judged': 2500, 'restore_checks': 800, 'idempotence_checks': 2500, 'parse_vs_later_checks': 2500},
+              'history_steps': 6000, 'handover_claims': 1500, 'manual_claims_judged': 2500, 'restore_checks': 800, 'idempotence_checks': 2500, 'parse_vs_later_checks': 2500,
+              'parse_vs_later_on_copy': 1000, 'histories_continued_on_copy': 150},
     'thorough': {'evaluations': 500000, 'layout:after-last-meta-no-postings': 800},
 }
 RULE = ('case = one document from the comment-layout generator (comment runs, matching or mismatching indentation, adjacent above / below / '
@@ -145,12 +147,26 @@ def run_case(col, r, idx):
         if v0 or any(attribution.ownership_map(f_off)):
             col.violation('ownership:comments-owned-with-attribution-off', 'parse(auto_claim_comments=False) left a comment owned or flagged', wit)
             return
+        f_copy = copy.deepcopy(f_off) if idx % 2 == 0 else None
         f_off.auto_claim_comments()
         later = attribution.ownership_map(f_off)
         if later != base_map:
             k = next(i for i, (a, b) in enumerate(zip(later, base_map)) if a != b)
             col.violation('parse-vs-later', f'comment #{k}: auto_claim_comments() after parse gives {later[k]}, default parsing gives {base_map[k]}', wit)
             return
+        if f_copy is not None:
+            # ... and the same on a copy of the unattributed document: flags travel with the copy, later attribution is the same
+            col.ev()
+            col.count('parse_vs_later_on_copy')
+            v0 = ownership_errors(f_copy, False)
+            if v0 or any(attribution.ownership_map(f_copy)):
+                col.violation('ownership:copy-of-unattributed-document', 'a deep copy of a document parsed with auto_claim_comments=False has owned or flagged comments'
+                              + (f': {v0[1]}' if v0 else ''), wit)
+                return
+            f_copy.auto_claim_comments()
+            if attribution.ownership_map(f_copy) != base_map:
+                col.violation('parse-vs-later:copy', 'auto_claim_comments() on a deep copy of the unattributed document differs from default parsing', wit)
+                return
         # idempotence (whole file, then a random sub-model)
         col.ev()
         col.count('idempotence_checks')
@@ -203,7 +219,12 @@ def run_case(col, r, idx):
         handover = {}
         pp = ops.pingpong_ops(root, r, r.randint(6, 14)) if idx % 3 == 2 else []
         pp.reverse()
+        swap_at = r.randint(1, 8) if not pp and idx % 4 == 1 else -1
         for s in range(max(r.randint(5, 15), len(pp))):
+            if s == swap_at:
+                root = copy.deepcopy(root)          # the history continues on a copy taken mid-way
+                log.append('<continue on deepcopy>')
+                col.count('histories_continued_on_copy')
             op = pp.pop() if pp else mg.claim_op(root)
             if op is None:
                 continue
